@@ -250,7 +250,7 @@ func (d DB) InboxForActor(c context.Context, actorIRI *url.URL) (*url.URL, error
 	}
 	if a.StoredInbox[us(actorIRI)] {
 		a.note(idx, c, "stored")
-		return U(us(actorIRI) + "/inbox"), nil
+		return U(a.RewriteEndpoints(us(actorIRI) + "/inbox")), nil
 	}
 	a.note(idx, c, "none")
 	return nil, nil
